@@ -200,6 +200,8 @@ class TestCasePostProcessor(cv.ChromosomeVisitor):
     ) -> None:
         for test_case_chromosome in chromosome.test_case_chromosomes:
             test_case_chromosome.accept(self)
+        # The visitors may have modified the test cases: cached suite values are outdated.
+        chromosome.changed = True
 
     def visit_test_case_chromosome(  # noqa: D102
         self, chromosome: tcc.TestCaseChromosome
